@@ -210,6 +210,56 @@ func shrinkTable(ts TableSpec) []TableSpec {
 		c.Stages = append(append([]int{}, ts.Stages[:i]...), ts.Stages[i+1:]...)
 		out = append(out, c)
 	}
+	for i := range ts.Mutations {
+		c := clone()
+		c.Mutations = append(append([]Mutation{}, ts.Mutations[:i]...), ts.Mutations[i+1:]...)
+		out = append(out, c)
+	}
+	if ts.Scribble {
+		c := clone()
+		c.Scribble = false
+		out = append(out, c)
+	}
+	if ts.StageFaults {
+		c := clone()
+		c.StageFaults = false
+		out = append(out, c)
+	}
+	if ts.FinalVia != 0 {
+		c := clone()
+		c.FinalVia = 0
+		out = append(out, c)
+	}
+	if ts.FaultAt != 0 {
+		c := clone()
+		c.FaultAt = 0
+		out = append(out, c)
+		if ts.FaultAt > 1 {
+			c := clone()
+			c.FaultAt = ts.FaultAt - 1
+			out = append(out, c)
+		}
+	}
+	if ts.Header2 != nil {
+		c := clone()
+		c.Header2 = nil
+		out = append(out, c)
+	}
+	for i := range ts.PropOps {
+		c := clone()
+		c.PropOps = append(append([]PropOp{}, ts.PropOps[:i]...), ts.PropOps[i+1:]...)
+		out = append(out, c)
+	}
+	for k := range ts.AlignEarly {
+		c := clone()
+		delete(c.AlignEarly, k)
+		out = append(out, c)
+	}
+	for k := range ts.SkipEarly {
+		c := clone()
+		delete(c.SkipEarly, k)
+		out = append(out, c)
+	}
 	if ts.Header != nil {
 		for j, h := range *ts.Header {
 			if len(h.B) > 0 {
@@ -304,7 +354,7 @@ func init() {
 				panic(err)
 			}
 			t := tabular.New()
-			o := ts.BuildRender(t, func(t tabular.Table) func() (string, error) { w := csv.Wrap(t); return w.Render })
+			o := ts.BuildRenderW(t, func(t tabular.Table) RenderW { return csv.Wrap(t) })
 			v := ts.SpecView() // what was put in; extractView(t) would be what the table now holds
 			vc := v.Coq(true)
 			return CaseOut{
